@@ -48,6 +48,8 @@ var c12 struct {
 	osCalls  int
 	osFailAt int
 	fileType bool
+	die      bool
+	dead     [2]bool
 }
 
 // the engine calls this whenever another party gets to run (root: 0 client, 1 server, -1 harness):
@@ -116,6 +118,13 @@ func c12Who(fd int) int {
 // a party that stopped answering never returns from its next system call on the socket
 func c12Tick(who int) {
 	if who == c12.stallWho && c12.calls[who] >= c12.stallAt {
+		if c12.die && !c12.dead[who] {
+			// the process dies: the kernel closes its end of the socket - the peer reads what was
+			// sent so far and then end-of-file, its writes fail
+			c12.dead[who] = true
+			close(c12.in[1-who].ch)
+			close(c12.in[1-who].fds)
+		}
 		<-c12.never
 	}
 	c12.calls[who]++
@@ -126,7 +135,7 @@ func vfstub_c12_Read(fd int, p []byte) (int, error) {
 	c12Tick(who)
 	pp := c12.in[who]
 	if len(pp.rest) == 0 {
-		pp.rest = <-pp.ch
+		pp.rest = <-pp.ch // a closed pipe yields nothing: end of file
 	}
 	n := copy(p, pp.rest)
 	pp.rest = pp.rest[n:]
@@ -136,6 +145,9 @@ func vfstub_c12_Read(fd int, p []byte) (int, error) {
 func vfstub_c12_Write(fd int, p []byte) (int, error) {
 	who := c12Who(fd)
 	c12Tick(who)
+	if c12.dead[1-who] {
+		return 0, syscall.EPIPE
+	}
 	n := len(p)
 	if c12.chunk > 0 && n > c12.chunk {
 		n = c12.chunk
@@ -157,6 +169,11 @@ func vfstub_c12_Sendmsg(fd int, p, oob []byte, to syscall.Sockaddr, flags int) e
 	// descriptors in flight hold a reference to their files
 	c14OS.fdOpen[c12.sent[0]-100]++
 	c14OS.fdOpen[c12.sent[1]-100]++
+	if c12.dead[1-who] {
+		c14OS.fdOpen[c12.sent[0]-100]--
+		c14OS.fdOpen[c12.sent[1]-100]--
+		return syscall.EPIPE
+	}
 	c12.inflight++
 	c12.in[1-who].fds <- c12.sent
 	return nil
@@ -165,7 +182,11 @@ func vfstub_c12_Sendmsg(fd int, p, oob []byte, to syscall.Sockaddr, flags int) e
 func vfstub_c12_Recvmsg(fd int, p, oob []byte, flags int) (n, oobn int, recvflags int, from syscall.Sockaddr, err error) {
 	who := c12Who(fd)
 	c12Tick(who)
-	c12.got = <-c12.in[who].fds
+	got, ok := <-c12.in[who].fds
+	if !ok {
+		return 0, 0, 0, nil, nil // end of file: no control message
+	}
+	c12.got = got
 	c12.inflight--
 	return 0, len(oob), 0, nil, nil
 }
@@ -308,10 +329,13 @@ func H_C12_handshake() {
 	c12.chunk = vfShape("chunk", 0, 2) * 3 // 0: the kernel takes every write whole; else 3 or 6 bytes per call
 	c12.stallWho = vfShape("stall", 0, 2) - 1
 	c12.stallAt = 0
+	c12.die = false
+	c12.dead[0], c12.dead[1] = false, false
 	if c12.stallWho >= 0 {
-		c12.stallAt = vfShape("at", 0, 7)
+		c12.stallAt = vfShape("at", 0, 24)
+		c12.die = vfShape("dies", 0, 1) == 1
 	} else {
-		c12.osFailAt = vfShape("osfail", 0, 6)
+		c12.osFailAt = vfShape("osfail", 0, 9)
 	}
 	var sess [2]*Session
 	var errs [2]error
@@ -325,6 +349,17 @@ func H_C12_handshake() {
 		done[1] = true
 	}()
 	vfRunGoroutines()
+	if c12.die {
+		// the peer process died in front of its k-th socket call: the survivor's call returns - with
+		// an error unless the dead end had already done everything the survivor waits for
+		sv := 1 - c12.stallWho
+		vfAssert(done[sv], "C12.session-establishment-returns-when-the-peer-dies")
+		if done[sv] && errs[sv] != nil {
+			vfAssert(sess[sv] == nil, "C12.failure-yields-no-session")
+		}
+		vfCover("opt:C12.peer-died")
+		return
+	}
 	// both calls return: with a session, or with an error once the time-out fired
 	vfAssert(done[0], "C12.client-session-establishment-returns")
 	vfAssert(done[1], "C12.server-session-establishment-returns")
